@@ -100,6 +100,9 @@ func runC01(c *Ctx, r *Report) {
 	// (h) a readable input is read: the opener fails only for the open itself or the rewind
 	borrow(c, r, c06OpenFailures, "C06-b/open-failures", "C01-h/open-failures", nil, true)
 	c06GzipProbe(c, r, "C01-h/gzip-probe")
+	// every named input gets its reader: a reader slot is released on every exit of the per-file goroutine
+	semaphorePairing(c, r, "C01-d/semaphore", "rare/pkg/extractor")
+	r.Floor("C01-d/semaphore", 1, "reader slots in OpenFilesToChan")
 	// (i) lines waiting in a batch are not overwritten by the scanner (the C04-a discipline)
 	c04Buffers(c, r, "C01-i")
 }
